@@ -205,45 +205,44 @@ Qed.
 
 End Normal.
 
-(* ---- the statements used by Properties/C13.v *)
+(* ---- the statements used by Properties/C13.v; fp2int = fp2int_gen 31 is the circuit of the current /repo *)
 Lemma fp2int_trunc_lemma a r pl dn inv : normal a -> fp2int a = (r, pl, dn, inv) -> fp2int_in_range a ->
   word r /\ sgn 32 r = fp2int_value a /\ inv = false /\ dn = false.
 Proof.
-  intros Hn Heq Hin. destruct (fp2int_outputs a Hn 32 r pl dn inv Heq (or_introl eq_refl)) as (Hd & Hi & Hr).
+  intros Hn Heq Hin. destruct (fp2int_outputs a Hn 31 r pl dn inv Heq (or_intror eq_refl)) as (Hd & Hi & Hr).
   destruct (Hr Hin) as (Hw & Hv & _). split; [exact Hw|]. split; [exact Hv|]. split; [|exact Hd].
   destruct inv; [|reflexivity]. exfalso. apply (proj1 Hi); [reflexivity | exact Hin].
 Qed.
 
 Lemma fp2int_invalid_lemma a r pl dn inv : normal a -> fp2int a = (r, pl, dn, inv) ->
   (inv = true <-> ~ fp2int_in_range a).
-Proof. intros Hn Heq. exact (proj1 (proj2 (fp2int_outputs a Hn 32 r pl dn inv Heq (or_introl eq_refl)))). Qed.
+Proof. intros Hn Heq. exact (proj1 (proj2 (fp2int_outputs a Hn 31 r pl dn inv Heq (or_intror eq_refl)))). Qed.
 
-Lemma fp2int_plost_char a r pl dn inv : normal a -> fp2int a = (r, pl, dn, inv) -> fp2int_in_range a ->
+(* the precision-lost flag is exact *)
+Lemma fp2int_plost_lemma a r pl dn inv : normal a -> fp2int a = (r, pl, dn, inv) -> fp2int_in_range a ->
+  (pl = true <-> fp2int_discarded a).
+Proof.
+  intros Hn Heq Hin. destruct (fp2int_outputs a Hn 31 r pl dn inv Heq (or_intror eq_refl)) as (_ & _ & Hr).
+  destruct (Hr Hin) as (_ & _ & Hp). rewrite Hp. split; [intros [H | [H _]]; [exact H | discriminate] | intros H; left; exact H].
+Qed.
+
+(* ---- history: the instance BEFORE /repo 48843fa tested Range(shifted, 32, 0) (fp2int_gen 32): the flag also fired on odd integers *)
+Lemma fp2int_32_plost_char a r pl dn inv : normal a -> fp2int_gen 32 a = (r, pl, dn, inv) -> fp2int_in_range a ->
   (pl = true <-> (fp2int_discarded a \/ Z.odd (fp2int_value a) = true)).
 Proof.
   intros Hn Heq Hin. destruct (fp2int_outputs a Hn 32 r pl dn inv Heq (or_introl eq_refl)) as (_ & _ & Hr).
   destruct (Hr Hin) as (_ & _ & Hp). rewrite Hp. split; intros [H | H]; try (left; exact H); right; [exact (proj2 H) | split; [reflexivity | exact H]].
 Qed.
 
-Lemma fp2int_plost_sound a r pl dn inv : normal a -> fp2int a = (r, pl, dn, inv) -> fp2int_in_range a ->
-  fp2int_discarded a -> pl = true.
-Proof. intros Hn Heq Hin Hd. apply (proj2 (fp2int_plost_char a r pl dn inv Hn Heq Hin)). left; exact Hd. Qed.
-
-(* with Range(shifted, 31, 0) instead of Range(shifted, 32, 0) the flag is exact: the one-token repair is right *)
-Lemma fp2int_fixed_plost a r pl dn inv : normal a -> fp2int_gen 31 a = (r, pl, dn, inv) -> fp2int_in_range a ->
-  sgn 32 r = fp2int_value a /\ (pl = true <-> fp2int_discarded a).
+(* 1.0 = 0x3f800000: nothing is discarded, the old instance raised p_lost; the current one does not *)
+Lemma fp2int_32_plost_refuted_lemma :
+  exists a, normal a /\ fp2int_in_range a /\ ~ fp2int_discarded a /\ fp2int_gen 32 a = (1, true, false, false)
+            /\ fp2int a = (1, false, false, false).
 Proof.
-  intros Hn Heq Hin. destruct (fp2int_outputs a Hn 31 r pl dn inv Heq (or_intror eq_refl)) as (_ & _ & Hr).
-  destruct (Hr Hin) as (_ & Hv & Hp). split; [exact Hv|]. rewrite Hp. split; [intros [H | [H _]]; [exact H | discriminate] | intros H; left; exact H].
-Qed.
-
-(* 1.0 = 0x3f800000: nothing is discarded, the circuit raises p_lost *)
-Lemma fp2int_plost_refuted_lemma :
-  exists a, normal a /\ fp2int_in_range a /\ ~ fp2int_discarded a /\ fp2int a = (1, true, false, false).
-Proof.
-  exists 1065353216. split; [|split; [|split]].
+  exists 1065353216. split; [|split; [|split; [|split]]].
   - unfold normal, word. vm_compute. intuition discriminate.
   - unfold fp2int_in_range. vm_compute. reflexivity.
   - unfold fp2int_discarded. vm_compute. intros H; apply H; reflexivity.
+  - vm_compute. reflexivity.
   - vm_compute. reflexivity.
 Qed.
